@@ -69,7 +69,14 @@ def run(ctx, model):
     from pycomm3.cip import SERVICE_STATUS, MULTI_PACKET_SERVICES, Services
     rng = ctx.rng
     lines, pend = [], []
-    multi = {b[0] for b in MULTI_PACKET_SERVICES}
+    # the services whose replies may legitimately carry status 6 ("more to come"): Read / Write Tag Fragmented, Get Instance
+    # Attribute List, Multiple Service Packet, Get Attribute List (Logix 5000 data access manual; CIP Vol. 1) — written here,
+    # NOT taken from the library's MULTI_PACKET_SERVICES, which is the thing under test
+    multi = {0x52, 0x53, 0x55, 0x0A, 0x03}
+    if {b[0] for b in MULTI_PACKET_SERVICES} != multi:
+        ctx.violation("continuing-services-table-differs", {"table": sorted(b[0] for b in MULTI_PACKET_SERVICES)},
+                      "MULTI_PACKET_SERVICES = %s, the services that legitimately answer status 6 are %s"
+                      % (sorted(hex(b[0]) for b in MULTI_PACKET_SERVICES), sorted(hex(x) for x in multi)))
 
     def case(stream, transport, dt, raw, meta=None):
         out, valid, value, err = impl_generic(transport, dt, raw)
